@@ -20,8 +20,8 @@ ASSUMPTIONS = ['shape bound: 0..3 existing log files (stamps, sizes, budgets, re
                'timestamps are reals and int(ts * 1_000_000) is the exact floor (machine arithmetic treated as mathematical for the microsecond stamp; the +1.5 margin of the repair absorbs float rounding)',
                'a log file name is an injective function of its microsecond stamp (one writer: same prefix, suffix, timezone string)',
                'histories are sequences of atomic public operations (each holds self.lock); other parties appear as rely steps (external deletion of any file)']
-UNDECIDED_CLAUSES = ['record-level reader clause through read()/read_block() ("every record exactly once, in order, never torn") is decided only at the level of the file index '
-                     '(refresh/seek_block/prune never move the position backwards and never skip an existing newer file); the byte-level read loop is not under contract']
+UNDECIDED_CLAUSES = ['record-level reader clause: decided per call as the CURSOR law of the real read()/read_block() (ReadUnit) plus the index functions; that a file on disk is a sequence of whole '
+                     'records (the writer appends data + newline in one write) is assumed, and the decode/split tail of read() for txt/json modes is not modelled (binl mode is)']
 EXPLANATION = 'Writer invariant LogInv preserved by the real write/new_logfile/prune_logfiles for arbitrary (equal, backwards) timestamps; budget, newest-kept, no-overwrite and rebase clauses.'
 
 
@@ -305,4 +305,193 @@ class SeekTellUnit(Unit):
         return rolllog_history.search(200, 1)
 
 
-UNITS = [WriterUnit(), RefreshUnit(), SeekTellUnit()]
+class ReadUnit(Unit):
+    """the real RollLog.read (record at a time and block mode; refresh_logfiles used by the contract RefreshUnit proves for it) from every reader position over 0..3 listed files, any of
+    which may have been deleted externally and whose sizes on disk are arbitrary: the CURSOR law -- what is returned is exactly the next unread record (block: the rest of the file) of the
+    first file at or after the position that still has unread bytes, the position then stands right behind it, and it never moves backwards.  Successive reads therefore deliver
+    consecutive, disjoint chunks in writing order: every record once, in order, none torn (given that a file on disk is a sequence of whole records)."""
+    name = 'RollLog.read / read_block'
+    targets = (f'{ROLL}::RollLog.read', f'{ROLL}::RollLog.read_block')
+    required_covers = ('read returned a record', 'read returned None', 'read skipped a deleted file', 'read went on to the next file')
+    bounded = {'listed log files': '0..3 (+ 0..2 appearing through autorefresh)'}
+    mutants = (
+        ('exhausted file: index not advanced', f'{ROLL}::RollLog.read', "                    self.read_file = read_file = None\n                    self.read_idx  = read_idx\n", "                    self.read_file = read_file = None\n", 'C13.cursor'),
+        ('last file closed at its end (would be re-read from the start)', f'{ROLL}::RollLog.read', "                        if not autorefresh:\n                            return None\n\n                        autorefresh = False\n\n                        self.refresh_logfiles()\n\n                        if (read_idx := self.read_idx + 1)", "                        if not autorefresh:\n                            read_file.close(); self.read_file = None; return None\n\n                        autorefresh = False\n\n                        self.refresh_logfiles()\n\n                        if (read_idx := self.read_idx + 1)", 'C13.cursor'),
+        ('deleted file: index moves two on', f'{ROLL}::RollLog.read', 'self.read_idx = read_idx = read_idx + 1', 'self.read_idx = read_idx = read_idx + 2', 'C13.cursor'),
+    )
+
+    def shapes(self, tier):
+        out = []
+        for N in (0, 1, 2, 3):
+            for idx in range(N + 1):
+                for opened in ((False, True) if idx < N else (False,)):
+                    for block in (False, True):
+                        for auto, nnew in ((False, 0), (True, 0), (True, 1), (True, 2)):
+                            if tier == 'quick' and N == 3 and (idx, opened) not in ((0, True), (1, False), (3, False)):
+                                continue
+                            if nnew == 2 and (N == 3 or (tier == 'quick' and (N, idx, opened) not in ((2, 1, True), (1, 0, True), (2, 2, False), (0, 0, False)))):
+                                continue
+                            out.append((N, idx, opened, block, auto, nnew))
+        return out
+
+    def run(self, shape, dec):
+        N, idx, opened, block, auto, nnew = shape
+        ex = new_exec(dec, ROLL)
+        fs = RM.setup(ex)
+        me, files = make_log(ex, fs, N, False, (idx, opened), rdonly=True)
+        me.f['mode'] = 'binl'
+        me.f['autorefresh'] = auto
+        # rely: any listed file may have been deleted externally; sizes on disk are whatever the writer reached (not the listed ones)
+        for i, lf in enumerate(fs.logs):
+            lf.f['exists'] = z3.Bool(f'exists{i}')
+            lf.f['size'] = z3.Int(f'disk_size{i}')
+            ex.assume(lf.f['size'] >= 0)
+        pos0 = me.f['read_file'].f['pos'] if opened else 0
+        if opened:
+            ex.assume(z3.And(pos0 >= 0, pos0 <= fs.logs[idx].f['size']))
+        uni = [(files[j], fs.logs[j], (pos0 if (j == idx and opened) else 0), (j == idx and opened)) for j in range(idx, N)]
+        new_files = []
+        last_ts = files[-1].timestamp if files else z3.RealVal(0)
+        last_us = files[-1].path.f['us'] if files else z3.IntVal(-1)
+        for j in range(nnew):
+            ts, us, size = z3.Real(f'nts{j}'), z3.Int(f'nus{j}'), z3.Int(f'ndisk{j}')
+            ex.assume(z3.And(ts > last_ts, us > last_us, size >= 0, ts * 1000000 == z3.ToReal(us)))
+            last_ts, last_us = ts, us
+            new_files.append((RollLogFile(ts, Obj('logname', us=us), size), us, size))
+        refreshed = []
+
+        def refresh_contract(ex_, self_):
+            """postcondition of refresh_logfiles as RefreshUnit proves it (deleted files leave the list, newer files are appended; the position stays on a file that still exists
+            with its handle, otherwise it goes to the first file after the old position and the handle is closed)"""
+            lst, ri, rf = self_.f['logfiles'], self_.f['read_idx'], self_.f['read_file']
+            cur = lst[ri] if ri < len(lst) else None
+            kept = [f for f in lst if ex_.truth(fs.logs[[id(x) for x in files].index(id(f))].f['exists'])]
+            added = []
+            if not refreshed:
+                for rec, us, size in new_files:
+                    fs.add_log(us, size)
+                    added.append(rec)
+                    uni.append((rec, fs.logs[-1], 0, False))
+            refreshed.append(1)
+            after = kept + added
+            if cur is not None and any(k is cur for k in kept):
+                r = [id(k) for k in after].index(id(cur))
+            else:
+                r = len([k for k in kept if [id(x) for x in lst].index(id(k)) < ri])
+                if isinstance(rf, Obj):
+                    rf.f['closed'] = True
+                    self_.f['read_file'] = None
+            self_.f['logfiles'], self_.f['read_idx'] = after, r
+            self_.f['logfiles_size'] = sum([f.size for f in after], z3.IntVal(0))
+            return 0
+        ex.contracts[('RollLog', 'refresh_logfiles')] = Native(refresh_contract, 'refresh_logfiles contract')
+        O = ex.oblige
+        try:
+            res = ex.call_closure(closure(ROLL, 'RollLog.read'), [me, None, block], {})
+        except ExcSig as e:
+            ex.outcome = f'raise {e.cls}'
+            O(f'C13.cursor: read raises {e.cls} ({e.origin})', False)
+            return ex
+        ex.outcome = 'return'
+
+        def has(u):      # this file has unread bytes the reader can get at
+            rec, lf, start, is_open = u
+            return z3.And(z3.BoolVal(True) if is_open else zb(lf.f['exists']), zi(start) < zi(lf.f['size']))
+
+        def gone(u):     # an externally deleted file: whatever was unread in it may be lost (rely)
+            return z3.Not(zb(u[1].f['exists']))
+        rf, ri = me.f['read_file'], me.f['read_idx']
+        lst = me.f['logfiles']
+        if res is None:
+            ex.cover('read returned None')
+            # "nothing to read right now" is not a promise that nothing is unread (the caller polls again); what matters is where the position stands afterwards (below)
+            k = None
+        else:
+            ex.cover('read returned a record')
+            d = res
+            while isinstance(d, Obj) and d.cls in ('datalines',):
+                d = d.f['of']
+            while isinstance(d, Obj) and d.cls == 'data' and d.f.get('stripped') is not None:
+                d = d.f['stripped']
+            ok = isinstance(d, Obj) and d.cls == 'data' and any(d.f['of'] is u[1] for u in uni)
+            O('C13.cursor: what read() returns is a chunk of one of the log files at or after the position', ok)
+            if not ok:
+                return ex
+            k = [i for i, u in enumerate(uni) if d.f['of'] is u[1]][0]
+            rec, lf, start, is_open = uni[k]
+            O('C13.cursor: the chunk starts exactly at the read position of that file (nothing skipped, nothing delivered twice)', zi(d.f['start']) == zi(start))
+            O('C13.cursor: the chunk is not empty', zi(d.f['n']) > 0)
+            if block:
+                O('C13.cursor: block mode returns everything up to the end of that file', zi(d.f['start']) + zi(d.f['n']) == zi(lf.f['size']))
+                O('C13.cursor: block mode returns the records without their newlines', isinstance(res, Obj) and res.cls == 'datalines' and res.f['cut'] == 1)
+            else:
+                O('C13.cursor: record mode returns exactly one whole record (up to the next record boundary), without its newline',
+                  z3.And(zi(d.f['start']) + zi(d.f['n']) == RM.REC_END(zi(lf.f['us']), zi(start)), z3.BoolVal(isinstance(res, Obj) and res.cls == 'data' and res.f.get('stripped') is d)))
+            for u in uni[:k]:
+                O('C13.cursor: no earlier file with unread bytes is passed over (records come in writing order)', z3.Or(z3.Not(has(u)), gone(u)))
+            if k > 0:
+                ex.cover('read went on to the next file')
+            if k > 0 and any('Not(exists' in str(c) for c in ex.conds):
+                ex.cover('read skipped a deleted file')
+            # the position now stands right behind the chunk
+            O('C13.cursor: afterwards the position is right behind the returned chunk, on an open handle of that file',
+              z3.And(z3.BoolVal(isinstance(rf, Obj) and rf.f['target'] is lf and not rf.f['closed'] and isinstance(ri, int) and ri < len(lst) and lst[ri] is rec),
+                     zi(rf.f['pos']) == zi(d.f['start']) + zi(d.f['n'])) if isinstance(rf, Obj) else z3.BoolVal(False))
+        if res is None and isinstance(ri, int):
+            # the cursor law for "nothing to read": everything before the new position is read, void or externally deleted; the position did not move backwards
+            here = [i for i, u in enumerate(uni) if ri < len(lst) and u[0] is lst[ri]]
+            before = uni[:here[0]] if here else (uni if ri >= len(lst) else None)
+            O('C13.cursor: after "nothing to read" the read index names a file at or after the old position (never backwards)', before is not None)
+            for u in before or []:
+                O('C13.cursor: after "nothing to read" no file with unread bytes lies before the new position (no existing file is skipped)', z3.Or(z3.Not(has(u)), gone(u)))
+            if isinstance(rf, Obj):
+                O('C13.cursor: an open read handle belongs to the file the read index names', bool(here) and rf.f['target'] is uni[here[0]][1])
+            if here:
+                u = uni[here[0]]
+                now = rf.f['pos'] if isinstance(rf, Obj) else 0
+                O('C13.cursor: after "nothing to read" the position inside the file has not moved backwards (a later read does not deliver old records again)',
+                  z3.Or(zi(now) >= zi(u[2]), gone(u)))
+                O('C13.cursor: ... and has not moved forwards over unread bytes', z3.Or(zi(now) <= zi(u[2]), zi(u[2]) >= zi(u[1].f['size']), gone(u)))
+        return ex
+
+    def replay(self, failure):
+        """native: scripted reader/writer/deletion scenarios on the real RollLog (every record its own file), then the random history search"""
+        import itertools, logging, os, shutil, tempfile
+        logging.disable(logging.CRITICAL)
+        from openfilter.filter_runtime.rolllog import RollLog
+        obs = []
+        for n_before, n_after, delete_current, block in itertools.product((1, 2), (1, 2, 3), (False, True), (False, True)):
+            d = tempfile.mkdtemp(prefix='verif_rl_')
+            try:
+                w = RollLog(d, mode='txt', file_size=1, total_size=10 ** 9)
+                t = 1700000000.0
+                for i in range(n_before):
+                    w.write(f'r{i}', timestamp=t + i)
+                r = RollLog(d, mode='txt', rdonly=True, autorefresh=True)
+                r.seek(('start', 0))
+                rd = (lambda: r.read_block()) if block else (lambda: r.read())
+                got = []
+                while (x := rd()) is not None:
+                    got += x if isinstance(x, list) else [x]
+                for i in range(n_before, n_before + n_after):
+                    w.write(f'r{i}', timestamp=t + i)
+                lost = set()
+                if delete_current and r.read_idx < len(r.logfiles):
+                    os.unlink(r.logfiles[r.read_idx].path)
+                for _ in range(8):
+                    x = rd()
+                    if x is not None:
+                        got += x if isinstance(x, list) else [x]
+                want = [f'r{i}' for i in range(n_before + n_after)]
+                if got != want:
+                    obs.append(f'{n_before} records read, {n_after} more written in new files, current file deleted={delete_current}, block={block}: delivered {got}, written {want}')
+            finally:
+                shutil.rmtree(d, ignore_errors=True)
+        if obs:
+            return {'confirmed': True, 'inputs': 'reader at the end of the last file it knows; the writer adds files; optionally the reader\'s current (fully read) file is deleted', 'observed': obs[:4],
+                    'required': 'every record in a file that exists is delivered exactly once, in writing order'}
+        from replay_drivers import rolllog_history
+        return rolllog_history.search(300, 2)
+
+
+UNITS = [WriterUnit(), RefreshUnit(), SeekTellUnit(), ReadUnit()]
